@@ -5,7 +5,7 @@ A *benign* change keeps the property true; every check run against it must stay 
 (at most 3 in total unless given explicitly), stores patch, notes and results under /verif/benign/<ID>_<k>/ and removes the worktree."""
 import json, os, re, shutil, subprocess, sys, tempfile, time
 
-def related(pid, patch, limit=3):
+def related(pid, patch, limit=2):
     touched = set(re.findall(r"^\+\+\+ b/(\S+)", open(patch).read(), re.M))
     score = {}
     for l in open("/verif/properties.jsonl"):
